@@ -23,6 +23,7 @@ struct CaseData
   std::vector<Correspondence> corr;
   VecL ttrue, wtrue;    // true translation and rotation vector (3D) / angle (2D, size 1)
   bool decoy_first;
+  bool far_unreferenced = false, random_corr_fields = false;
 };
 
 struct Variant {std::string name; MatL H;};
@@ -165,11 +166,19 @@ static void gen_case(vh::Rng & r, CaseData & cd)
   if (ck >= 1) {shuffle(pt);}
   if (ck == 2) {shuffle(ps);}
   cd.src_full.assign(ns, VecL::Zero(d)); cd.tgt_full.assign(nt, VecL::Zero(d)); cd.nrm_full.assign(nt, VecL::Zero(d));
-  for (size_t i = 0; i < ns; ++i) {VecL p(d); for (int k = 0; k < d; ++k) {p(k) = r.normal() * cd.radius * 5;} cd.src_full[i] = p;}
+  // points no correspondence names are either ordinary or very far from the registered subset
+  // (they must not enter any centroid, scale or bound): drawn from a separate stream
+  vh::Rng rx(r.next(), 0, 5);
+  const LD far = (ck == 2 && rx.coin(0.4)) ? (LD)rx.logu(1e3, 1e7) : 1.0L;
+  cd.far_unreferenced = far > 1.0L;
+  for (size_t i = 0; i < ns; ++i) {VecL p(d); for (int k = 0; k < d; ++k) {p(k) = r.normal() * cd.radius * 5 * far;} cd.src_full[i] = p;}
   for (size_t i = 0; i < nt; ++i) {
-    VecL p(d); for (int k = 0; k < d; ++k) {p(k) = r.normal() * cd.radius * 5;}
+    VecL p(d); for (int k = 0; k < d; ++k) {p(k) = r.normal() * cd.radius * 5 * far;}
     cd.tgt_full[i] = p; cd.nrm_full[i] = random_unit(r, d);
   }
+  // the optional fields of a correspondence (squared distance, weight) are not part of the
+  // statement: whatever they hold, the estimate is the un-weighted least-squares solution
+  cd.random_corr_fields = ck >= 1 && rx.coin(0.4);
   cd.corr.clear();
   for (int i = 0; i < cd.n; ++i) {
     VecL s(d), nv(d);
@@ -191,7 +200,7 @@ static void gen_case(vh::Rng & r, CaseData & cd)
     cd.src_full[ps[i]] = s;
     cd.tgt_full[pt[i]] = R * s + cd.ttrue + nz;
     cd.nrm_full[pt[i]] = nv;
-    cd.corr.emplace_back(ps[i], pt[i]);
+    if (cd.random_corr_fields) {cd.corr.emplace_back(ps[i], pt[i], rx.logu(1e-6, 1e3), rx.logu(1e-3, 1e3));} else {cd.corr.emplace_back(ps[i], pt[i]);}
   }
   if (ck >= 1) {for (size_t i = cd.corr.size(); i > 1; --i) {std::swap(cd.corr[i - 1], cd.corr[r.range(0, i - 1)]);}}
 }
@@ -373,6 +382,8 @@ static void one_case(vh::Ctx & c, uint64_t idx)
   c.cat("normals_" + cd.normals_kind);
   c.cat("motion_" + cd.motion_kind);
   c.cat("corr_" + cd.corr_kind);
+  if (cd.far_unreferenced) {c.cat("unreferenced_points_far_from_the_registered_subset");}
+  if (cd.random_corr_fields) {c.cat("correspondences_with_arbitrary_distance_and_weight_fields");}
   c.cat(std::string("normal_w_") + (cd.normal_w < 0 ? "m1" : cd.normal_w == 0 ? "0" : "p1"));
   uint64_t h = vh::hash_doubles({(double)cd.dim, (double)cd.is_float, (double)cd.n, (double)cd.radius, (double)cd.theta,
         (double)cd.tnorm, (double)cd.noise, (double)cd.scale, (double)cd.src_full[0](0)});
